@@ -2,7 +2,7 @@
 (* Stage (1) for C11: TLC enumerates the polynomial / rational fragment    *)
 (* (three levels over a reduced alphabet) and all-kind trees for the       *)
 (* flatten / fold rewrites.                                                *)
-EXTENDS C11_Rewrites, Json
+EXTENDS C11_Impl, Json
 CONSTANT Tier
 VARIABLE tree
 
@@ -64,5 +64,8 @@ OracleLaws ==
       ROk(r) => /\ REq(RAdd(r, RNeg(r)), RConst(0, 1)) \in {"EQ", "NA"}
                 /\ REq(RMul(r, RConst(1, 1)), r) \in {"EQ", "NA"}
                 /\ REq(RMul(r, r), RPow(r, 2)) \in {"EQ", "NA"}
-Emit == Complete => PrintT(ToJson([e |-> tree]))
+\* design-level check: the transcribed flatten against value preservation and IsFlat
+Emit == Complete =>
+    /\ PrintT(ToJson([e |-> tree]))
+    /\ (FlattenOnModel(tree) = "OK" \/ PrintT(ToJson([design |-> FlattenOnModel(tree), de |-> tree])))
 =============================================================================
